@@ -6,6 +6,7 @@ package beacon
 // validates against spec/PartialCache.tla.  It asserts nothing itself.
 
 import (
+	"time"
 	"encoding/binary"
 	"encoding/json"
 	"fmt"
@@ -205,6 +206,7 @@ func TestVerifCache(t *testing.T) {
 	for _, sc := range scripts {
 		c := newPartialCache(log.New(nil, log.ErrorLevel, false), sch)
 		tr.Emit("Reset", vlib.E{"scenario": sc.Name, "max": MaxPartialsPerNode})
+	steps:
 		for si, st := range sc.Steps {
 			switch st.Kind {
 			case "append":
@@ -213,7 +215,12 @@ func TestVerifCache(t *testing.T) {
 				binary.BigEndian.PutUint16(sig[0:2], uint16(st.Idx))
 				binary.BigEndian.PutUint32(sig[2:6], uint32(tag))
 				p := &drand.PartialBeaconPacket{Round: st.Round, PreviousSignature: vcPrev(st.Prev), PartialSig: sig}
-				err := c.Append(p)
+				var err error
+				if r := vlib.Call(30*time.Second, func() { err = c.Append(p) }); !r.Returned || r.Panic != "" {
+					// the aggregator goroutine would die here: recorded, the rest of this scenario is skipped
+					tr.Emit("Panic", vlib.E{"op": "append", "idx": st.Idx, "round": st.Round, "prev": st.Prev, "what": r.Panic, "returned": r.Returned})
+					break steps
+				}
 				ln := 0
 				if rc := c.GetRoundCache(st.Round, vcPrev(st.Prev)); rc != nil {
 					ln = rc.Len()
@@ -228,7 +235,10 @@ func TestVerifCache(t *testing.T) {
 				}
 				tr.Emit("Append", ev)
 			case "flush":
-				c.FlushRounds(st.Round)
+				if r := vlib.Call(30*time.Second, func() { c.FlushRounds(st.Round) }); !r.Returned || r.Panic != "" {
+					tr.Emit("Panic", vlib.E{"op": "flush", "idx": -1, "round": st.Round, "prev": 0, "what": r.Panic, "returned": r.Returned})
+					break steps
+				}
 				sigs, rcvd, held, total := vcProject(c)
 				ev := vlib.E{"round": st.Round, "held": held}
 				if total <= 80 || si%16 == 0 || si == len(sc.Steps)-1 {
